@@ -108,10 +108,12 @@ class Enc:
             self.finish(i)
         elif k == "float":
             x = r.choice([0.0, -0.0, 1.5, -2.25, 1e300, 5e-324, float("inf"), float("-inf"), float("nan"), 0.1, 123456.789])
-            if f["binfloat"] and r.random() < 0.7:
+            if (f["binfloat"] and r.random() < 0.7) or (x != x and f["binfloat"]):
                 bits = r.choice([struct.unpack("<Q", struct.pack("<d", x))[0], 0x7FF8000000000001, 0xFFF0000000000000, 0x8000000000000000, 0x7FF0000000000000])
                 i = self.tcode("g"); self.out += list(struct.pack("<Q", bits)); self.finish(i)
             else:
+                if x != x:
+                    x = 2.5      # the sign of a NaN parsed from text differs between builds: not a text-float case
                 s = repr(x).encode()
                 self.ft[tuple(s)] = struct.unpack("<Q", struct.pack("<d", float(s)))[0]
                 i = self.tcode("f"); self.out += [len(s)] + list(s); self.finish(i)
